@@ -312,14 +312,21 @@ def shards(tier, seed=1):
     q = tier == "quick"
     n = 1 if q else 8
     out = [{"check": "stub", "examples": 40, "budget_s": 60}]
-    bops = rot(_BOPS, seed, 3) if q else _BOPS
-    if q and not any(b[0] == "maxwell" for b in bops):
-        bops = bops[:2] + [("maxwell", "E" if seed % 2 else "M")]
+    if q:
+        # every FMM evaluator in every run: single / double / adjoint double layer with rotating families (so that all three near-field
+        # kernels of fmm/helpers.py are visited), the three hypersingular evaluators, Maxwell E and M; potentials likewise
+        fams = ["laplace", "helmholtz", "modified"]
+        bops = [(fams[(seed + i) % 3], op) for i, op in enumerate(("V", "K", "Kp"))]
+        bops = [b if b != ("modified", "Kp") else ("helmholtz", "Kp") for b in bops]
+        bops += [("laplace", "W"), ("helmholtz", "W"), ("modified", "W"), ("maxwell", "E"), ("maxwell", "M")]
+        pots = [(fams[(seed + 1) % 3], "V"), (fams[(seed + 2) % 3] if fams[(seed + 2) % 3] != "modified" else "helmholtz", "K"), ("maxwell", "E"), ("maxwell", "M")]
+    else:
+        bops = _BOPS
+        pots = [("laplace", "V"), ("helmholtz", "K"), ("maxwell", "E"), ("laplace", "K"), ("helmholtz", "V"), ("modified", "V"), ("maxwell", "M")]
     for fam, op in bops:
-        out.append({"check": "boundary", "fam": fam, "op": op, "examples": (8 if fam != "maxwell" else 5) * n, "budget_s": 300 * n})
-    pots = [("laplace", "V"), ("helmholtz", "K"), ("maxwell", "E"), ("laplace", "K"), ("helmholtz", "V"), ("modified", "V"), ("maxwell", "M")]
-    for fam, op in (rot(pots, seed, 2) if q else pots):
-        out.append({"check": "potential", "fam": fam, "op": op, "examples": 8 * n, "budget_s": 240 * n})
+        out.append({"check": "boundary", "fam": fam, "op": op, "examples": (8 if fam != "maxwell" else 6) if q else 56, "budget_s": 150 if q else 2400})
+    for fam, op in pots:
+        out.append({"check": "potential", "fam": fam, "op": op, "examples": 8 if q else 64, "budget_s": 120 if q else 1920})
     if not q:
         for what in ("laplace", "helmholtz", "modified", "maxwell", "two_grids"):
             out.append({"check": "reference", "what": what, "budget_s": 3000, "threads": 2})
